@@ -298,7 +298,15 @@ func c07ResumePause(t *testing.T, run *Run, idx int, rng *rand.Rand) {
 	for _, r := range w.RespLog() {
 		okAt := near(r.Done, T) || near(r.Done, tFinal)
 		if r.Status != 200 || r.Target == "" || !okAt {
-			run.Violate(fmt.Sprintf("held-request-lost:resume-then-pause:got-%d", r.Status), fmt.Sprintf("request %s was held (pause at 1s, max-pause 100s); resume and pause were issued back to back %d times at %v, the final resume at %v: it got status=%d target=%q at %v (the service was never stopped)", r.ID, rounds, T, tFinal, r.Status, r.Target, r.Done), map[string]any{"idx": idx, "requests": nreq, "rounds": rounds}, func() []string { return w.Trace(200) })
+			// where it was lost: turned away by a target that a pause had put into the draining state
+			// (its claim came back with an error), or never got as far as a claim
+			where := "refused-before-any-claim"
+			for _, h := range w.Hooks {
+				if h.Point == "lb.claimed" && h.Req == r.ID && strings.Contains(h.Extra, "err=") {
+					where = "claim-refused-by-draining-target"
+				}
+			}
+			run.Violate(fmt.Sprintf("held-request-lost:resume-then-pause:got-%d:%s", r.Status, where), fmt.Sprintf("request %s was held (pause at 1s, max-pause 100s); resume and pause were issued back to back %d times at %v, the final resume at %v: it got status=%d target=%q at %v (the service was never stopped)", r.ID, rounds, T, tFinal, r.Status, r.Target, r.Done), map[string]any{"idx": idx, "requests": nreq, "rounds": rounds}, func() []string { return w.Trace(200) })
 			return
 		}
 		if near(r.Done, tFinal) {
